@@ -250,6 +250,7 @@ def run(ctx, rep):
     c01.clause_comparator(prog, rep)
     c01.clause_snapshot_args(prog, rep)
     c01.clause_hydrated_incumbent(prog, rep)
+    c01.clause_wrong_epoch_source(prog, rep, rule="dedup-state-table")
     clause_failure_record(prog, rep)
     clause_own_commit_pending(prog, rep)
     clause_state_writes(prog, rep)
